@@ -1,5 +1,5 @@
 """C02 — picked competition vs Model/Competition.v."""
-from .. import core
+from .. import core, gens
 from .competition_common import CompetitionSuite, property_violation
 
 SUITES = [CompetitionSuite()]
@@ -23,7 +23,46 @@ def install_classifier(r, s):
     r.violation = violation
 
 
+def many_peptides(r, n_cases):
+    """groups whose members have HUNDREDS of peptides (isoform groups of abundant proteins; far more terms than the in-Coq evaluation
+    takes): several members tied at the highest peptide count, and lower-scoring groups carrying the twins of the tied members -
+    the property monitor decides (monitor only)"""
+    from .competition_common import run_competition, property_violation
+    n = 0
+    for k in range(n_cases):
+        rng = r.rng
+        npep = rng.choice([200, 256, 257, 300, 1000])
+        members = ["A", "B", "C"][:rng.choice([2, 3])]
+        decoy_first = rng.random() < 0.5
+        top = [("REV__" + m) if decoy_first else m for m in members]
+        infos_top = [[gens.fr(rng.choice([0.001, 0.01, 0.002])), f"PEP{i}K", list(top)] for i in range(npep)]
+        if rng.random() < 0.5:
+            infos_top.append([gens.fr(0.02), "ONLYFIRSTK", [top[0]]])         # the first member alone at the top count
+        groups, infos, scores = [top], [infos_top], [gens.fr(4.0)]
+        for m in members:
+            twin = m if decoy_first else "REV__" + m
+            groups.append([twin])
+            infos.append([[gens.fr(0.01), f"TW{m}K", [twin]]])
+            scores.append(gens.fr(rng.choice([2.0, 3.0])))
+        order = list(range(len(groups)))
+        rng.shuffle(order)
+        case = {"strategy": rng.choice(["picked_group", "picked_group", "picked"]), "groups": [groups[i] for i in order],
+                "infos": [infos[i] for i in order], "scores": [scores[i] for i in order], "seed": rng.randint(0, 2 ** 31 - 1)}
+        out = run_competition(case["strategy"], case["groups"], case["infos"], case["scores"], case["seed"])
+        n += 1
+        v = "raised-" + out["raise"] if "raise" in out else property_violation(case, out)
+        if v:
+            small = dict(case, infos=[inf if len(inf) < 10 else inf[:3] + [f"... {len(inf)} peptides of this form in all"] for inf in case["infos"]])
+            r.violation("property-failure", {"suite": "many_peptides", "peptides_per_member": npep, "case": small,
+                                             "survivors": [g for g, _, _ in out.get("ok", [])], "problem": v}, True,
+                        f"many_peptides: {len(members)} members with {npep} shared peptides each, strategy {case['strategy']}: {v}; "
+                        f"survivors {[g for g, _, _ in out.get('ok', [])]}"[:400])
+            return n
+    return n
+
+
 def run(r: core.Runner):
+    r.traces = (r.traces or 0) + many_peptides(r, core.tier_n(r.tier, 30, 300))
     r.assumptions += [
         "Python's sorted is stable, also with reverse=True (language guarantee)",
         "np.random.shuffle applies one permutation using len-1 draws whatever the element type, so shuffling an "
